@@ -5,6 +5,7 @@ import math
 from vlib import common as C
 
 ID = 'C18'
+READY = True
 LEVEL_TEXT = ('Full: every clause of C18 is a Coq theorem over R about the kernels re-translated from the source on every run '
               '(one-sided bound, quarter-width gap, exactness outside the band, symmetry for min; mirrored bounds for max/abs; '
               'friction potential non-negative, convex, below Coulomb, exact offset outside the switch radius; explicit C1 '
